@@ -78,7 +78,330 @@ def emit_grammar(gr):
     return "\n".join(L)
 
 
+# --------------------------------------------------------------------------- errors
+def split_top(s, sep=","):
+    """split at top-level separators (outside (), [], {}, <> and string literals)"""
+    parts, depth, cur, i = [], 0, "", 0
+    while i < len(s):
+        ch = s[i]
+        if ch == '"':
+            j = i + 1
+            while s[j] != '"' or s[j - 1] == "\\":
+                j += 1
+            cur += s[i:j + 1]
+            i = j + 1
+            continue
+        if ch in "([{<":
+            depth += 1
+        elif ch in ")]}>":
+            depth -= 1
+        if ch == sep and depth == 0:
+            parts.append(cur)
+            cur = ""
+        else:
+            cur += ch
+        i += 1
+    if cur.strip():
+        parts.append(cur)
+    return parts
+
+
+def balanced(s, i, open_ch="(", close_ch=")"):
+    """s[i] is open_ch; return index just past the matching close_ch (string-literal aware)"""
+    depth, j = 0, i
+    while j < len(s):
+        ch = s[j]
+        if ch == '"':
+            k = j + 1
+            while s[k] != '"' or s[k - 1] == "\\":
+                k += 1
+            j = k
+        elif ch == open_ch:
+            depth += 1
+        elif ch == close_ch:
+            depth -= 1
+            if depth == 0:
+                return j + 1
+        j += 1
+    raise ExtractError("errors", "unbalanced")
+
+
+FIELD_TYPES = {
+    "String": "List Char", "usize": "Nat", "i64": "Int", "Value": "Kind", "BinaryOp": "BinaryOp",
+    "FromUtf8Error": "List Char", "TryFromIntError": "Unit", "Option<String>": "Option (List Char)",
+    "(usize, usize)": "Loc",
+}
+
+
+def rust_str_literal(tok):
+    tok = tok.strip()
+    if not (tok.startswith('"') and tok.endswith('"')):
+        raise ExtractError("errors", f"display format is not a plain string literal: {tok[:40]!r}")
+    body = tok[1:-1]
+    out, i = "", 0
+    while i < len(body):
+        if body[i] == "\\":
+            nxt = body[i + 1]
+            if nxt == "\n":  # line continuation: skip the newline and leading whitespace
+                i += 2
+                while i < len(body) and body[i] in " \t\n":
+                    i += 1
+                continue
+            out += {"n": "\n", '"': '"', "\\": "\\", "'": "'"}.get(nxt) or _bad_escape(nxt)
+            i += 2
+        else:
+            out += body[i]
+            i += 1
+    return out
+
+
+def _bad_escape(c):
+    raise ExtractError("errors", f"unsupported escape \\{c} in display string")
+
+
+def error_tables(repo: Path):
+    src = strip_comments((repo / "src/eval/error.rs").read_text())
+    m = re.search(r"pub enum Error\s*\{", src)
+    if not m:
+        raise ExtractError("errors", "enum Error not found")
+    end = balanced(src, m.end() - 1, "{", "}")
+    body = src[m.end():end - 1]
+    variants = []
+    i = 0
+    while True:
+        # skip whitespace
+        while i < len(body) and body[i] in " \t\n,":
+            i += 1
+        if i >= len(body):
+            break
+        display = None
+        while body.startswith("#[", i):
+            j = balanced(body, i + 1, "[", "]")
+            attr = body[i:j]
+            mm = re.match(r"#\[snafu\(display\((.*)\)\)\]\Z", attr, re.S)
+            if mm:
+                display = mm.group(1)
+            elif not attr.startswith("#[snafu("):
+                raise ExtractError("errors", f"unknown attribute {attr[:40]}")
+            i = j
+            while body[i] in " \t\n":
+                i += 1
+        mm = re.match(r"([A-Z]\w*)", body[i:])
+        if not mm:
+            raise ExtractError("errors", f"variant name expected at {body[i:i+40]!r}")
+        name = mm.group(1)
+        i += len(name)
+        fields = []
+        while body[i] in " \t\n":
+            i += 1
+        if i < len(body) and body[i] == "{":
+            j = balanced(body, i, "{", "}")
+            for f in split_top(body[i + 1:j - 1]):
+                f = re.sub(r"#\[snafu\(source\(from\(Error, Box::new\)\)\)\]", "", f).strip()
+                if not f:
+                    continue
+                fm = re.match(r"(\w+)\s*:\s*(.+)\Z", f, re.S)
+                if not fm:
+                    raise ExtractError("errors", f"field not understood in {name}: {f!r}")
+                fields.append((fm.group(1), " ".join(fm.group(2).split())))
+            i = j
+        variants.append({"name": name, "fields": fields, "display": display})
+    # classify
+    for v in variants:
+        v["wrapper"] = any(t == "Box<Error>" for _, t in v["fields"])
+        if v["display"] is not None:
+            parts = split_top(v["display"])
+            v["template"] = rust_str_literal(parts[0])
+            v["args"] = [" ".join(a.split()) for a in parts[1:] if a.strip()]
+            if v["template"].count("{}") != len(v["args"]) or "{{" in v["template"] or re.search(r"\{[^}]", v["template"]):
+                raise ExtractError("errors", f"{v['name']}: template/argument mismatch or unsupported placeholder")
+    def table(fname, file, tname):
+        body = fn_body(strip_comments((repo / file).read_text()), fname, tname)
+        rows = []
+        for pat, val in re.findall(r"((?:\w+::\w+(?:\([^)]*\)|\{[^}]*\})?\s*\|?\s*)+)=>\s*\"([^\"]*)\"", body):
+            for c in re.findall(r"\w+::(\w+)", pat):
+                rows.append((c, val))
+        if len(set(c for c, _ in rows)) != len(rows) or not rows:
+            raise ExtractError(tname, "table rows not understood")
+        return rows
+    type_diag = table("render_type", "src/eval/error.rs", "typeNameDiag")
+    type_fn = table("render_type", "src/builtins/type_functions.rs", "typeNameFn")
+    op_sym = table("op_symbol", "src/eval/error.rs", "opSymbol")
+    return dict(variants=variants, type_diag=type_diag, type_fn=type_fn, op_symbol=op_sym)
+
+
+def renderer_tables(repo: Path, err):
+    src = strip_comments((repo / "src/main.rs").read_text())
+    body = fn_body(src, "eval_err_to_stacktrace", "peeled")
+    m = re.search(r"match error \{(.*)\Z", body, re.S)
+    if not m:
+        raise ExtractError("peeled", "match error { … } not found")
+    arms = m.group(1)
+    first = re.match(r"\s*((?:EvalError::\w+\{[^}]*\}\s*\|?\s*)+)=>\s*\{\s*eval_err_to_stacktrace\(path, func, \*source\)\s*\}", arms, re.S)
+    if not first:
+        raise ExtractError("peeled", "first arm is not an or-pattern of wrappers forwarding to `*source` with the same `func`")
+    peeled = re.findall(r"EvalError::(\w+)\{([^}]*)\}", first.group(1))
+    for name, pat in peeled:
+        if not re.match(r"\s*source\s*(,\s*\.\.)?\s*\Z", pat):
+            raise ExtractError("peeled", f"{name}: pattern binds more than `source`")
+    rest = arms[first.end():]
+    handled = re.findall(r"EvalError::(\w+)\{[^}]*\}\s*=>", rest)
+    if not re.search(r"_\s*=>\s*\{\s*StacktracedErrorMsg\{stacktrace: vec!\[\], msg: format!\(\"\{error\}\"\)\}", rest):
+        raise ExtractError("peeled", "default arm is not the Display fallback")
+    names = {v["name"] for v in err["variants"]}
+    for n in [p for p, _ in peeled] + handled:
+        if n not in names:
+            raise ExtractError("peeled", f"EvalError::{n} is not a variant")
+    # message-line formats of main: used by the model's renderer, so they are pinned here
+    main_body = fn_body(src, "main", "main")
+    fmts = {
+        "parse": 'format!("{ln}:{ch}: {msg}")' in main_body,
+        "final": 'eprintln!("{raw_cur_rel_script_path}:{msg}")' in main_body,
+        "exit": "process::exit(103)" in main_body,
+        "trace": 'format!(\n                            "\\nStacktrace:\\n  {}",\n                            st.stacktrace.join("\\n  "),' in main_body,
+        "atloc": body.count('st.msg = format!("{}:{}:{} {}", line, col, sep, st.msg);') == 2,
+        "sep": body.count('format!(" in \'{f}\':")') == 2,
+        "frame": 'st.stacktrace.push(format!("{p}:{line}:{col}: in \'{f}\'"));' in body,
+        "root": 'func.unwrap_or("<root>")' in body,
+        "unnamed": body.count('func_name.unwrap_or_else(|| "<unnamed function>".to_string())') == 2,
+    }
+    bad = [k for k, ok in fmts.items() if not ok]
+    if bad:
+        raise ExtractError("renderer_format", f"main.rs rendering shape changed: {bad}")
+    return dict(peeled=[p for p, _ in peeled], handled=handled)
+
+
+def typefn_tables(repo: Path):
+    src = strip_comments((repo / "src/builtins/type_functions.rs").read_text())
+    body = fn_body(src, "type_functions", "typeFns")
+    rows = []
+    for ns, inner in re.findall(r"(\w+): new_func_map\(vec!\[(.*?)\]\),", body, re.S):
+        found = re.findall(r'\(\s*"(\w+)"\.to_string\(\),\s*value::new_built_in_func\("([^"]+)"\.to_string\(\), (\w+)\),\s*\)', inner)
+        if len(found) != inner.count("new_built_in_func"):
+            raise ExtractError("typeFns", f"namespace {ns}: entry not understood")
+        for key, bname, fn in found:
+            rows.append((ns, key, bname, fn))
+    if not rows:
+        raise ExtractError("typeFns", "no rows")
+    return rows
+
+
+LEAN_KIND = {"Null": "Null", "Bool": "Bool", "Int": "Int", "Str": "Str", "List": "List", "Object": "Object",
+             "BuiltinFunc": "BuiltinFunc", "Func": "Func"}
+
+
+def lean_field_name(n):
+    return {"end": "stop", "from": "frm"}.get(n, n)
+
+
+def emit_errors(err, rend, tfns):
+    L = []
+    def kind_fn(name, rows, doc):
+        L.append(f"/-- {doc} -/")
+        L.append(f"def {name} : Kind → List Char")
+        seen = set()
+        for c, val in rows:
+            if c not in LEAN_KIND:
+                raise ExtractError(name, f"unknown Value variant {c}")
+            seen.add(c)
+            L.append(f"  | .{LEAN_KIND[c]} => {lean_chars(val)}")
+        if seen != set(LEAN_KIND):
+            raise ExtractError(name, f"kinds not covered: {set(LEAN_KIND) - seen}")
+        L.append("")
+    kind_fn("typeNameDiag", err["type_diag"], "`render_type` of src/eval/error.rs (type names in diagnostics)")
+    kind_fn("typeNameFn", err["type_fn"], "`render_type` of src/builtins/type_functions.rs (what `->type()` returns)")
+    L.append("/-- `op_symbol` of src/eval/error.rs -/")
+    L.append("def opSymbol : BinaryOp → List Char")
+    for c, val in err["op_symbol"]:
+        L.append(f"  | .{c} => {lean_chars(val)}")
+    L.append("")
+    leaves = [v for v in err["variants"] if not v["wrapper"]]
+    L.append("/-- the non-wrapper variants of `Error` (src/eval/error.rs), with their fields; a `Value` field is kept as its kind,")
+    L.append("    which is all the display templates use -/")
+    L.append("inductive Leaf where")
+    for v in leaves:
+        fs = []
+        for fname, ftype in v["fields"]:
+            if ftype not in FIELD_TYPES:
+                raise ExtractError("errors", f"{v['name']}.{fname}: unknown field type {ftype}")
+            fs.append(f"({lean_field_name(fname)} : {FIELD_TYPES[ftype]})")
+        L.append(f"  | {v['name']} " + " ".join(fs))
+    L.append("")
+    L.append("def Leaf.name : Leaf → List Char")
+    for v in leaves:
+        L.append(f"  | .{v['name']}" + " _" * len(v["fields"]) + f" => {lean_chars(v['name'])}")
+    L.append("")
+    L.append("/-- `Display` of a non-wrapper variant: its `#[snafu(display(…))]` template filled in -/")
+    L.append("def Leaf.msg : Leaf → List Char")
+    for v in leaves:
+        binders = " ".join(lean_field_name(f) for f, _ in v["fields"])
+        types = dict(v["fields"])
+        if v["display"] is None:
+            expr = lean_chars(v["name"])
+            binders = " ".join("_" for _ in v["fields"])
+        else:
+            pieces = v["template"].split("{}")
+            used = set()
+            terms = []
+            for k, piece in enumerate(pieces):
+                if piece:
+                    terms.append(lean_chars(piece))
+                if k < len(v["args"]):
+                    a = v["args"][k]
+                    mm = re.match(r"(render_type|op_symbol)\((\w+)\)\Z", a)
+                    if mm:
+                        f = mm.group(2)
+                        fn = {"render_type": "typeNameDiag", "op_symbol": "opSymbol"}[mm.group(1)]
+                        want = {"render_type": "Value", "op_symbol": "BinaryOp"}[mm.group(1)]
+                        if types.get(f) != want:
+                            raise ExtractError("errors", f"{v['name']}: {a} applied to a field of type {types.get(f)}")
+                        terms.append(f"{fn} {lean_field_name(f)}")
+                    elif re.match(r"\w+\Z", a) and a in types:
+                        f = a
+                        t = types[f]
+                        if t in ("String", "FromUtf8Error"):
+                            terms.append(lean_field_name(f))
+                        elif t == "usize":
+                            terms.append(f"natToChars {lean_field_name(f)}")
+                        elif t == "i64":
+                            terms.append(f"intToChars {lean_field_name(f)}")
+                        else:
+                            raise ExtractError("errors", f"{v['name']}: cannot display field {f} of type {t}")
+                    else:
+                        raise ExtractError("errors", f"{v['name']}: unknown display argument `{a}`")
+                    used.add(f)
+            binders = " ".join((lean_field_name(f) if f in used else "_") for f, _ in v["fields"])
+            expr = " ++ ".join(terms) if terms else "[]"
+        L.append(f"  | .{v['name']} {binders} => {expr}".replace("  =>", " =>"))
+    L.append("")
+    L.append("/-- variants whose `source` is another `Error` (context wrappers) -/")
+    L.append("def wrapperVariants : List (List Char) := [")
+    L.append(",\n".join(f"  {lean_chars(v['name'])}" for v in err["variants"] if v["wrapper"]))
+    L.append("]\n")
+    L.append("/-- wrappers the CLI renderer (`eval_err_to_stacktrace`) looks through -/")
+    L.append("def peeledVariants : List (List Char) := [")
+    L.append(",\n".join(f"  {lean_chars(n)}" for n in rend["peeled"]))
+    L.append("]\n")
+    L.append("/-- wrappers the renderer gives an arm of their own (position / call-frame carriers) -/")
+    L.append("def handledVariants : List (List Char) := [")
+    L.append(",\n".join(f"  {lean_chars(n)}" for n in rend["handled"]))
+    L.append("]\n")
+    L.append("/-- type functions: (namespace, property name, builtin's name, Rust function) -/")
+    L.append("def typeFnTable : List (List Char × List Char × List Char × List Char) := [")
+    L.append(",\n".join(f"  ({lean_chars(a)}, {lean_chars(b)}, {lean_chars(c)}, {lean_chars(d)})" for a, b, c, d in tfns))
+    L.append("]\n")
+    return "\n".join(L)
+
+
 def extend(repo: Path, tables):
+    err = error_tables(repo)
+    rend = renderer_tables(repo, err)
+    tfns = typefn_tables(repo)
+    tables["errors"] = err
+    tables["renderer"] = rend
+    tables["typefns"] = tfns
+    tables.setdefault("extra_imports", []).append("import SeedModel.Base")
+    tables.setdefault("extra_lean", []).append(emit_errors(err, rend, tfns))
     gr = grammar_tables(repo)
     tables["grammar"] = gr
     tables.setdefault("extra_imports", []).append("import SeedModel.Ast")
